@@ -1016,6 +1016,9 @@ class SortValues(BaseSetIndexSortValues):
             upsample=self.upsample,
         )
         if presorted:
+            if self.ignore_index:
+                # the index the divisions of the frame describe is dropped
+                return (None,) * (self.frame.npartitions + 1)
             return self.frame.divisions
         return (None,) * len(divisions)
 
@@ -1047,6 +1050,9 @@ class SortValues(BaseSetIndexSortValues):
 
     @functools.cached_property
     def _meta(self):
+        if self.ignore_index:
+            # every sorted partition gets a fresh default index
+            return self.frame._meta.reset_index(drop=True)
         return self.frame._meta
 
     @functools.cached_property
@@ -1101,12 +1107,21 @@ class SortValues(BaseSetIndexSortValues):
         # NFirst/NLast have unknown divisions while the head/tail of a presorted
         # sort_values keeps the frame's; only rewrite when nothing that was built
         # on top of the Head/Tail (loc, repartition, ...) consumes the result
-        if isinstance(parent, Head) and not dependents[parent._name]:
+        # NFirst/NLast keep the index of the frame
+        if (
+            isinstance(parent, Head)
+            and not dependents[parent._name]
+            and not self.ignore_index
+        ):
             return NFirst(
                 self.frame, n=parent.n, _columns=self.by, ascending=self.ascending
             )
 
-        if isinstance(parent, Tail) and not dependents[parent._name]:
+        if (
+            isinstance(parent, Tail)
+            and not dependents[parent._name]
+            and not self.ignore_index
+        ):
             return NLast(
                 self.frame, n=parent.n, _columns=self.by, ascending=self.ascending
             )
@@ -1285,7 +1300,14 @@ class SortValuesBlockwise(Blockwise):
 
     @functools.cached_property
     def _meta(self):
+        if self.sort_kwargs.get("ignore_index", False):
+            return self.frame._meta.reset_index(drop=True)
         return self.frame._meta
+
+    def _divisions(self):
+        if self.sort_kwargs.get("ignore_index", False):
+            return (None,) * (self.frame.npartitions + 1)
+        return super()._divisions()
 
 
 class SetIndexBlockwise(PinnedPartitioning, Blockwise):
